@@ -107,7 +107,7 @@ def IsSortOf (xs ys : List Val) : Prop :=
 /-- first position `≥ from` whose element has the same string form -/
 def firstMatch (xs : List Val) (key : Val) (fromIndex : Option Int) : Option Nat :=
   let k := rel xs.length (fromIndex.getD 0)
-  ((xs.zipIdx).drop k).find? (fun (v, _) => asString v == asString key) |>.map (·.2)
+  ((xs.zipIdx).drop k).find? (fun p => asString p.1 == asString key) |>.map (·.2)
 
 def indexOf (xs : List Val) (key : Val) (fromIndex : Option Int) : Out :=
   match firstMatch xs key fromIndex with
@@ -129,46 +129,52 @@ def flat (xs : List Val) (depth : Option Int) : Out :=
 
 def length (xs : List Val) : Out := ⟨.int xs.length, xs⟩
 
-/-! callbacks: `(element, index, array)` -/
+/-! callbacks: `(element, index, array)`; `xs.zipIdx` pairs every element with its
+index, `p.1` is the element and `p.2` the index -/
 abbrev Cb := Val → Int → List Val → Val
 abbrev Pred := Val → Int → List Val → Bool
 abbrev Cb4 := Val → Val → Int → List Val → Val
 
 /-- the invocations a full iteration makes, in order -/
 def calls (xs : List Val) : List Model.Meth.CallEv :=
-  xs.zipIdx.map (fun (v, i) => ⟨v, i, xs⟩)
+  xs.zipIdx.map (fun p => ⟨p.1, p.2, xs⟩)
 
 def forEach (xs : List Val) : Out := ⟨.null, xs⟩
 
 def map (xs : List Val) (f : Cb) : Out :=
-  ⟨.list (xs.zipIdx.map (fun (v, i) => f v i xs)), xs⟩
+  ⟨.list (xs.zipIdx.map (fun p => f p.1 p.2 xs)), xs⟩
 
 def filter (xs : List Val) (p : Pred) : Out :=
-  ⟨.list ((xs.zipIdx.filter (fun (v, i) => p v i xs)).map (·.1)), xs⟩
+  ⟨.list ((xs.zipIdx.filter (fun q => p q.1 q.2 xs)).map (·.1)), xs⟩
 
 def find (xs : List Val) (p : Pred) : Out :=
-  match xs.zipIdx.find? (fun (v, i) => p v i xs) with
-  | some (v, _) => ⟨v, xs⟩
+  match xs.zipIdx.find? (fun q => p q.1 q.2 xs) with
+  | some q => ⟨q.1, xs⟩
   | none => ⟨.null, xs⟩
 
 def findIndex (xs : List Val) (p : Pred) : Out :=
-  match xs.zipIdx.find? (fun (v, i) => p v i xs) with
-  | some (_, i) => ⟨.int i, xs⟩
+  match xs.zipIdx.find? (fun q => p q.1 q.2 xs) with
+  | some q => ⟨.int q.2, xs⟩
   | none => ⟨.int (-1), xs⟩
 
 def every (xs : List Val) (p : Pred) : Out :=
-  ⟨.bool (xs.zipIdx.all (fun (v, i) => p v i xs)), xs⟩
+  ⟨.bool (xs.zipIdx.all (fun q => p q.1 q.2 xs)), xs⟩
 
 def someP (xs : List Val) (p : Pred) : Out :=
-  ⟨.bool (xs.zipIdx.any (fun (v, i) => p v i xs)), xs⟩
+  ⟨.bool (xs.zipIdx.any (fun q => p q.1 q.2 xs)), xs⟩
 
 def flatMap (xs : List Val) (f : Cb) : Out :=
-  ⟨.list (xs.zipIdx.flatMap (fun (v, i) => spreadable (f v i xs))), xs⟩
+  ⟨.list (xs.zipIdx.flatMap (fun p => spreadable (f p.1 p.2 xs))), xs⟩
 
 def reduce (xs : List Val) (f : Cb4) (init : Option Val) : Out :=
   match init, xs with
-  | some a, _ => ⟨xs.zipIdx.foldl (fun acc (v, i) => f acc v i xs) a, xs⟩
+  | some a, _ => ⟨xs.zipIdx.foldl (fun acc p => f acc p.1 p.2 xs) a, xs⟩
   | none, [] => ⟨.null, xs⟩
-  | none, x :: r => ⟨(r.zipIdx 1).foldl (fun acc (v, i) => f acc v i xs) x, xs⟩
+  | none, x :: r => ⟨(r.zipIdx 1).foldl (fun acc p => f acc p.1 p.2 xs) x, xs⟩
+
+/-- note 3 of the document: the methods that change the array they are called on -/
+def documentedMutator : Model.Meth.Call → Bool
+  | .push _ | .pop | .shift | .unshift _ | .splice _ | .reverse | .sort => true
+  | _ => false
 
 end Spec.Js
